@@ -79,6 +79,22 @@ def mk_seq(elem_ty, arr, off, length):
     return SV(Seq(elem_ty), arr, (off, length))
 
 
+def _mentions_any(t, ids, memo):
+    k = t.get_id()
+    if k in memo:
+        return memo[k]
+    if z3.is_quantifier(t):
+        r = _mentions_any(t.body(), ids, memo)
+    elif z3.is_const(t):
+        r = k in ids
+    elif z3.is_app(t):
+        r = any(_mentions_any(c, ids, memo) for c in t.children())
+    else:
+        r = False
+    memo[k] = r
+    return r
+
+
 class Snapshot:
     __slots__ = ("env", "heap")
 
@@ -99,6 +115,7 @@ class State:
         self.exc = None      # exception class being handled (for bare raise)
         self.call_pre = None  # Snapshot before a callee (for old() inside callee ensures)
         self.qdepth = 0      # >0 while translating the body of a quantifier / comprehension
+        self.qids = set()    # z3 ids of the bound constants currently in scope
 
     def snapshot(self):
         return Snapshot(self.env, self.heap)
@@ -106,7 +123,31 @@ class State:
     def assume(self, f):
         if z3.is_true(f):
             return
+        if self.qdepth > 0 and self.qids and _mentions_any(f, self.qids, {}):
+            # a fact about a quantifier-bound variable must never become a global assumption (it would capture the variable
+            # as a free constant); dropping an assumption is always sound
+            self.ctx.dropped_scoped = getattr(self.ctx, "dropped_scoped", 0) + 1
+            return
         self.pc.append(f)
+        self._note_neq(f, 0)
+
+    def _note_neq(self, f, depth):
+        """remember syntactic disequalities of references: rd() uses them to skip stores at provably different objects"""
+        from .expr import NEQ
+        if depth > 6 or not z3.is_app(f):
+            return
+        if z3.is_and(f):
+            for c in f.children():
+                self._note_neq(c, depth + 1)
+        elif z3.is_not(f) and z3.is_eq(f.arg(0)):
+            a, b = f.arg(0).arg(0), f.arg(0).arg(1)
+            if a.sort().kind() == z3.Z3_INT_SORT:
+                NEQ.add((a.get_id(), b.get_id()))
+                NEQ.add((b.get_id(), a.get_id()))
+        elif z3.is_distinct(f) and f.num_args() == 2:
+            a, b = f.arg(0), f.arg(1)
+            NEQ.add((a.get_id(), b.get_id()))
+            NEQ.add((b.get_id(), a.get_id()))
 
     # ---- environment
     def get(self, name):
